@@ -66,6 +66,13 @@ _OOO_NAMESPACES = {
 }
 _NUMBER_COLUMNS_REPEATED = "{" + _OOO_NAMESPACES["table"] + "}number-columns-repeated"
 _TEXT_PREFIX = "{" + _OOO_NAMESPACES["text"] + "}"
+_TABLE_PREFIX = "{" + _OOO_NAMESPACES["table"] + "}"
+#: Elements of a table that can contain rows in addition to the table itself.
+_TABLE_ROW_CONTAINER_TAGS = (
+    _TABLE_PREFIX + "table-header-rows",
+    _TABLE_PREFIX + "table-row-group",
+    _TABLE_PREFIX + "table-rows",
+)
 
 
 def _excel_cell_value(cell, datemode):
@@ -242,6 +249,20 @@ def _ods_text(element, location):
     return result
 
 
+def _ods_table_rows(table_or_row_container_element):
+    """
+    The ``table:table-row`` elements of a table in document order including
+    the ones nested in ``table:table-header-rows`` ("rows to repeat"),
+    ``table:table-row-group`` (grouped rows) and ``table:table-rows``.
+    """
+    for child in table_or_row_container_element:
+        if child.tag == _TABLE_PREFIX + "table-row":
+            yield child
+        elif child.tag in _TABLE_ROW_CONTAINER_TAGS:
+            for nested_row in _ods_table_rows(child):
+                yield nested_row
+
+
 def ods_rows(source_ods_path, sheet=1):
     """
     Rows stored in ODS document ``source_ods_path`` in ``sheet``.
@@ -290,7 +311,7 @@ def ods_rows(source_ods_path, sheet=1):
     location = errors.Location(source_ods_path, has_cell=True, has_sheet=True)
     for _ in range(sheet - 1):
         location.advance_sheet()
-    for table_row in _findall(table_element, "table:table-row", namespaces=_OOO_NAMESPACES):
+    for table_row in _ods_table_rows(table_element):
         row = []
         for table_cell in _findall(table_row, "table:table-cell", namespaces=_OOO_NAMESPACES):
             repeated_text = table_cell.attrib.get(_NUMBER_COLUMNS_REPEATED, "1")
